@@ -455,6 +455,7 @@ def judge_trace(trace):
     terminal = {}
     claimed_ops = set()
     expected_close = set()
+    f1_broken = False
     fc_seen = False
     coop_seen = False
     pre_ready_shutdown = False
@@ -513,7 +514,12 @@ def judge_trace(trace):
             # after a deliberate force-close the two sides legitimately exchange errors for that channel
             if fc_seen:
                 continue
-            bad("health", k, e)
+            # consequence of finding F1: the channel_ready sent early on reestablish is sent AGAIN when the initial
+            # persist completes (monitor_pending_channel_ready is still set); if the channel has advanced meanwhile
+            # the second one carries a later commitment point and the peer closes the channel
+            if "Peer sent a reconnect channel_ready with a different point" in e and any(getattr(x, "f1_epoch", None) is not None for x in cs.values()):
+                f1_broken = True
+            bad("health", k, e, key="F1-channel_ready-resent-on-reestablish-before-initial-persist" if f1_broken else None)
 
         # outstanding sets at the START of the step (for the freeze judge)
         start_out = dict(((n, c), set(s.outstanding) | ({-1} if s.initial_pending else set())) for (n, c), s in cs.items())
@@ -798,8 +804,9 @@ def judge_trace(trace):
                 infl = set(v["inflight"])
                 out = set(s.outstanding)
                 # The manager forgets in-flight updates only when MonitorEvent::Completed arrives, i.e. when NO update of
-                # the channel is pending any more (completions may arrive out of order).
-                if (out - infl) or (infl and not out):
+                # the channel is pending any more (completions may arrive out of order; a still-pending initial persist
+                # counts: after finding F1 a channel can operate while it is in progress).
+                if (out - infl) or (infl and not out and not s.initial_pending):
                     bad("e", k, "node %d chan %s: ChannelManager in-flight updates %s but updates handed and not reported complete are %s (MonitorEvent::Completed %s)" % (
                         v["n"], v["chan"], sorted(infl), sorted(out), "emitted early" if out - infl else "missing"))
                 if (out or s.initial_pending) and not v["mip"]:
@@ -852,7 +859,9 @@ def judge_trace(trace):
         for p in end["payments"]:
             t = terminal.get(p["tag"], [])
             if len(t) == 0 and not fc_seen:
-                bad("d", last_step, "payment %s (%d->%d) reached no terminal event after everything completed" % (p["tag"], p["from"], p["to"]))
+                # (a channel force-closed as a consequence of finding F1 resolves its HTLCs on chain, like a scripted fc)
+                bad("d", last_step, "payment %s (%d->%d) reached no terminal event after everything completed" % (p["tag"], p["from"], p["to"]),
+                    key="F1-channel_ready-resent-on-reestablish-before-initial-persist" if f1_broken else None)
             if "PaymentSent" in t and p["tag"] not in claimed_ops:
                 bad("health", last_step, "payment %s reported sent but never claimed" % p["tag"])
     return V, stats
